@@ -315,8 +315,12 @@ struct AlgoEngine : EngineBase {
           case 1: *ret_d = amc::uninitialized_copy_n(first, len, d); break;
           case 2: *ret_d = amc::uninitialized_move(first, last, d); break;
           case 3: { std::pair<It, D *> r = amc::uninitialized_move_n(first, len, d); *ret_d = r.second; *ret_in = raw_of(r.first); *has_in = true; break; }
+#ifdef VF_HETERO_RELOC  // only the optional binary instantiates a relocation between different types
           case 4: *ret_d = amc::uninitialized_relocate(first, last, d); break;
           default: { std::pair<It, D *> r = amc::uninitialized_relocate_n(first, len, d); *ret_d = r.second; *ret_in = raw_of(r.first); *has_in = true; break; }
+#else
+          default: break;
+#endif
         }
       }
     };
